@@ -76,7 +76,12 @@ def check_string(ctx, s: str, multiline: bool, opts: dict, tag: str) -> None:
         ctx.check('\n' not in e and '\r' not in e, 'raw_linebreak',
                   f'escape_text({s!r}, multiline=False) = {e!r} contains a raw line break', multiline=multiline)
     text = '"' + e + '"'
-    tok = Tokenizer(text, **opts)
+    if opts.get('_enable_late'):
+        # "escapes enabled" through the documented public attribute instead of the constructor argument
+        tok = Tokenizer(text, **{k: v for k, v in opts.items() if k != '_enable_late' and k != 'allow_escapes'}, allow_escapes=False)
+        tok.allow_escapes = True
+    else:
+        tok = Tokenizer(text, **opts)
     got = list(tok)     # iteration stops at the first EOF
     ok = len(got) == 1 and got[0][0] is Token.STRING and type(got[0][1]) is str and got[0][1] == s
     if not ok:
@@ -126,6 +131,7 @@ def execute_string(desc, ctx):
     for multiline in (False, True):
         check_string(ctx, s, multiline, {'allow_escapes': True}, 'default')
         check_string(ctx, s, multiline, dict(OTHER_OPTS, allow_escapes=True), 'other-options-flipped')
+        check_string(ctx, s, multiline, {'allow_escapes': True, '_enable_late': True}, 'allow_escapes-set-as-attribute')
 
 
 # ------------------------------------------------------------------ (b) random
